@@ -10,8 +10,12 @@ tables of box / guide glyphs, padding arithmetic and alignment offsets.
 families: panel, padding, align, constrain, styled, rule, bar, pbar, columns, tree
 consoles: utf8 | ascii (file.encoding == "ascii" -> options.ascii_only) | legacy (legacy_windows=True)
 
-Measured (this machine, VF_WORKERS=4 / default 16): see the final report of the
-build; quick ~ 0.25 M cases, thorough ~ 2.5 M cases.
+Measured on this machine while ~10 other agents kept the load average at 110-150 (so wall
+times are inflated 8-10x; CPU seconds are the stable number):
+  quick    355,954 cases, 1,362 distinct outcomes, 257 CPU-s (wall 228 s with 6 workers under
+           load; ~20 s expected on 16 idle cores)
+  thorough 2,425,364 cases, 1,528 distinct outcomes, 2,084 CPU-s (wall 1,932 s with 16 workers
+           under load; ~2.5 min expected on 16 idle cores)
 """
 import io
 import itertools
